@@ -271,13 +271,7 @@ uint32_t RSNEAPOL::header_size() const {
 
 void RSNEAPOL::write_body(OutputMemoryStream& stream) {
     if (key_.size()) {
-        if (!header_.key_t && header_.install) {
-            header_.key_length = Endian::host_to_be<uint16_t>(32);
-            wpa_length(static_cast<uint16_t>(key_.size()));
-        }
-        else if (key_.size()) {
-            wpa_length(static_cast<uint16_t>(key_.size()));
-        }
+        wpa_length(static_cast<uint16_t>(key_.size()));
     }
     stream.write(header_);
     stream.write(key_.begin(), key_.end());
